@@ -88,6 +88,9 @@ def _frame_module_worker(job):
 # phase 1: VC generation (one process per function under contract)
 
 
+PROP_INCLUDES = {"C13": ["C12"]}
+
+
 def _gen_worker(job):
   target, prop = job
   try:
@@ -236,7 +239,12 @@ def main(argv=None):
 
   C.load_all()
   registry.load_all()
-  targets = [t for t, c in C.REGISTRY.items() if prop in c.all_props() and not c.assumed]
+  # properties that build on another property: C13 (the suite's verdicts on good / weak generators) presupposes that every
+  # single test computes its p-value as specified (C12) - C12's obligations, ground tables and bounded checks are part of
+  # C13's check as well
+  also = PROP_INCLUDES.get(prop, [])
+  targets = [t for t, c in C.REGISTRY.items() if (prop in c.all_props() or any(a in c.all_props() for a in also))
+             and not c.assumed]
   # assumed contracts used by this property's functions: only their frame condition is checked
   frame_targets = [t for t, c in C.REGISTRY.items() if c.assumed and not t.endswith(".__fields__") and
                    (prop in c.all_props() or prop in getattr(c, "frame_props", ()))]
@@ -246,10 +254,17 @@ def main(argv=None):
   # lemmas: those declared for the property plus every lemma instantiated by one of its contracts (found after VC
   # generation through the `lemma:<name>` theory tag; proved in the same run)
   lemma_names = [n for n, l in C.LEMMAS.items() if prop in l.props]
-  bidx = [i for i, b in enumerate(registry.BOUNDED)
-          if b["prop"] == prop and (b["tier"] == "quick" or tier == "thorough")]
-  gidx = [i for i, g in enumerate(registry.GROUND)
-          if g["prop"] == prop and (g["tier"] == "quick" or tier == "thorough")]
+  names_seen = set()
+  bidx, gidx = [], []
+  for i, b in enumerate(registry.BOUNDED):
+    if (b["prop"] == prop or b["prop"] in also) and (b["tier"] == "quick" or tier == "thorough") and b["name"] not in names_seen:
+      if b["prop"] != prop and any(x["prop"] == prop and x["name"] == b["name"] for x in registry.BOUNDED):
+        continue
+      names_seen.add(b["name"])
+      bidx.append(i)
+  for i, g in enumerate(registry.GROUND):
+    if (g["prop"] == prop or g["prop"] in also) and (g["tier"] == "quick" or tier == "thorough"):
+      gidx.append(i)
   if args.no_bounded:
     bidx = []
   if not targets and not lemma_names and not bidx and not gidx:
@@ -267,7 +282,15 @@ def main(argv=None):
     b_async = [pool.apply_async(_bounded_worker, ((i, tier, seed),)) for i in bidx]
     g_async = [pool.apply_async(_ground_worker, ((i,),)) for i in gidx]
     t_gen0 = time.time()
-    gens = pool.map(_gen_worker, [(t, prop) for t in targets], chunksize=1)
+    def gen_prop(t):      # a target that belongs to an included property is verified under THAT property's tags
+      c0 = C.REGISTRY[t]
+      if prop in c0.all_props() or prop in getattr(c0, "frame_props", ()):
+        return prop
+      for a in also:
+        if a in c0.all_props():
+          return a
+      return prop
+    gens = pool.map(_gen_worker, [(t, gen_prop(t)) for t in targets], chunksize=1)
     # dependency closure: a proof here is modular, so the property also rests on the contract of every callee reached
     # from its functions.  Callee contracts that this property's tags do not select are verified too, with ALL their
     # clauses (prop = None), transitively - a change inside a shared helper is then noticed by every property above it.
